@@ -8,6 +8,8 @@ draft = open(os.path.join(ROOT, "notes", "section7_draft.md")).read()
 dev = open(os.path.join(ROOT, "notes", "deviations_by_property.md")).read()
 fixes = subprocess.run([os.path.join(ROOT, "tools_design_tables.py"), "fixes"], capture_output=True, text=True).stdout
 seeded = subprocess.run([os.path.join(ROOT, "tools_design_tables.py"), "seeded"], capture_output=True, text=True).stdout
+laws = subprocess.run([os.path.join(ROOT, "tools_design_tables.py"), "laws"], capture_output=True, text=True).stdout
+draft = draft.replace("LAWS_TABLE_PLACEHOLDER", laws)
 nseed = seeded.count("| seeded/")
 nmiss = seeded.count("| no - ")
 draft = draft.replace("AGENT_DEVIATIONS_PLACEHOLDER", dev)
